@@ -210,4 +210,125 @@ Proof.
   apply read_slots_spec; auto. intros i Hlo Hhi. apply (di_slots _ _ D); auto.
   pose proof (ci_ord _ _ C). rewrite (ci_clen _ _ C) in Hhi. lia.
 Qed.
+
+(* state-level form of cursor_fifo *)
+Lemma consume_vals : forall s k, cinvr size s -> dinvr size s ->
+  snd (consume size k s) = cseq (tr s + 1) (N.to_nat (N.min k (c_len s))).
+Proof.
+  pose proof size_pos as Hp.
+  intros s k C D. unfold consume. cbn [snd].
+  replace (c_cc s mod size) with (tr s mod size)
+    by (rewrite (ci_ccc _ _ C); unfold size; symmetry; apply mod_mod_divides; lia).
+  apply read_slots_spec; auto. intros i Hlo Hhi. apply (di_slots _ _ D); auto.
+  pose proof (ci_ord _ _ C). rewrite (ci_clen _ _ C) in Hhi. lia.
+Qed.
+
+Lemma consecutive_cseq : forall k from, consecutive (Nz from) (map Nz (cseq from k)) = true.
+Proof.
+  induction k as [|k IH]; intros from; cbn [cseq map consecutive]; auto.
+  rewrite Z.eqb_refl. cbn [andb]. replace (Nz from + 1)%Z with (Nz (from + 1)) by (unfold Nz; lia). apply IH.
+Qed.
+Lemma cseq_length : forall k from, length (cseq from k) = k.
+Proof. induction k; intros; cbn; auto. Qed.
+
+Lemma firstn_map_app {A B} (g : A -> B) : forall (l : list A) (r : list B), firstn (length l) (map g l ++ r) = map g l.
+Proof. induction l; intros; cbn; auto. f_equal. auto. Qed.
+Lemma skipn_map_app {A B} (g : A -> B) : forall (l : list A) (r : list B), skipn (length l) (map g l ++ r) = r.
+Proof. induction l; intros; cbn; auto. Qed.
+
+Ltac consume_case size f r arg s C D IH O :=
+  destruct (consume size arg s) as [s' vs] eqn:E;
+  assert (C' : cinvr size s') by (replace s' with (fst (consume size arg s)) by (rewrite E; auto); apply inv_consume; auto; try apply size_pos; try apply size_le);
+  assert (D' : dinvr size s') by (replace s' with (cstep1 size s (CCons arg)) by (unfold cstep1; rewrite E; reflexivity); apply dinv_step; auto);
+  assert (V : vs = cseq (tr s + 1) (N.to_nat (N.min arg (c_len s)))) by (replace vs with (snd (consume size arg s)) by (rewrite E; auto); apply consume_vals; auto);
+  assert (T : tw s' = tw s /\ tr s' = tr s + N.min arg (c_len s)) by (revert E; unfold consume; intros X; inversion X; auto);
+  destruct T as [T1 T2]; pose proof (ci_clen _ _ C) as CL;
+  destruct (IH (tl r) s' C' D') as [J|J]; [|right; destruct r; cbn in *; lia];
+  left; cbn [cjudge];
+  assert (Lv : length vs = N.to_nat (N.min arg (c_len s))) by (rewrite V; apply cseq_length);
+  replace (Z.of_nat (length vs) <? 0)%Z with false by (symmetry; apply Z.ltb_ge; lia);
+  replace (Nz (tr s) + Z.of_nat (length vs))%Z with (Nz (tr s')) by (unfold Nz; lia);
+  rewrite Nat2Z.id;
+  replace (length (map Nz vs ++ crun f size (tl r) s') <? length vs)%nat with false
+    by (symmetry; apply Nat.ltb_ge; rewrite app_length, map_length; lia);
+  rewrite firstn_map_app, skipn_map_app;
+  rewrite V at 1; replace (Nz (tr s) + 1)%Z with (Nz (tr s + 1)) by (unfold Nz; lia);
+  rewrite consecutive_cseq; cbn [andb];
+  rewrite T1 in J; rewrite J;
+  replace (Nz (tr s') <=? Nz (tw s))%Z with true; auto;
+  symmetry; apply Z.leb_le; unfold Nz; lia.
+
+(* the executable judgement accepts every run of the model (every operation sequence, sizes 2^k2) *)
+Lemma judge_crun : forall fuel ops s, cinvr size s -> dinvr size s ->
+  cjudge fuel (Nz size) ops (Nz (tw s)) (Nz (tr s)) (crun fuel size ops s) = true \/ (fuel <= length ops)%nat.
+Proof.
+  pose proof size_pos as Hp. pose proof size_le as Hl.
+  induction fuel as [|f IH]; intros ops s C D; [right; lia|].
+  destruct ops as [|op r]; [left; reflexivity|].
+  cbn [crun cjudge].
+  set (arg := N.min (zN (hd 0%Z r)) 100000).
+  assert (Hlen : (S f <= length (op :: r))%nat -> (f <= length (tl r))%nat -> False \/ True) by auto.
+  pose proof (ci_ord _ _ C) as O.
+  destruct op as [|[[ | | ]|[ | | ]|]|]; cbn [crun].
+  - (* acquire_producer *)
+    destruct (acquire_producer size arg s) as [s' n] eqn:E.
+    assert (C' : cinvr size s') by (replace s' with (fst (acquire_producer size arg s)) by (rewrite E; auto); apply inv_acquire_producer; auto).
+    assert (D' : dinvr size s') by (replace s' with (cstep1 size s (CAcqP arg)) by (unfold cstep1; rewrite E; reflexivity); apply dinv_step; auto).
+    assert (Hn : n = p_len s').
+    { revert E. unfold acquire_producer. destruct (_ <=? _); [intros X; inversion X; auto|]. destruct (_ =? _); intros X; inversion X; auto. }
+    assert (T : tw s' = tw s /\ tr s' = tr s).
+    { revert E. unfold acquire_producer. destruct (_ <=? _); [intros X; inversion X; auto|]. destruct (_ =? _); intros X; inversion X; auto. }
+    destruct T as [T1 T2]. pose proof (ci_plen _ _ C') as PL. pose proof (ci_ord _ _ C') as O'.
+    destruct (IH (tl r) s' C' D') as [J|J]; [|right; destruct r; cbn in *; lia].
+    left. rewrite T1, T2 in J. rewrite J. unfold Nz in *.
+    replace (0 <=? Z.of_N n)%Z with true by (symmetry; apply Z.leb_le; lia).
+    replace (Z.of_N n <=? Z.of_N size - (Z.of_N (tw s) - Z.of_N (tr s)))%Z with true; auto.
+    symmetry. apply Z.leb_le. lia.
+  - consume_case size f r arg s C D IH O.
+  - consume_case size f r arg s C D IH O.
+  - consume_case size f r arg s C D IH O.
+  - consume_case size f r arg s C D IH O.
+  - consume_case size f r arg s C D IH O.
+  - (* acquire_consumer *)
+    destruct (acquire_consumer size arg s) as [s' n] eqn:E.
+    assert (C' : cinvr size s') by (replace s' with (fst (acquire_consumer size arg s)) by (rewrite E; auto); apply inv_acquire_consumer; auto).
+    assert (D' : dinvr size s') by (replace s' with (cstep1 size s (CAcqC arg)) by (unfold cstep1; rewrite E; reflexivity); apply dinv_step; auto).
+    assert (Hn : n = c_len s').
+    { revert E. unfold acquire_consumer. destruct (_ <=? _); [intros X; inversion X; auto|]. destruct (_ =? _); intros X; inversion X; auto. }
+    assert (T : tw s' = tw s /\ tr s' = tr s).
+    { revert E. unfold acquire_consumer. destruct (_ <=? _); [intros X; inversion X; auto|]. destruct (_ =? _); intros X; inversion X; auto. }
+    destruct T as [T1 T2]. pose proof (ci_clen _ _ C') as CL. pose proof (ci_ord _ _ C') as O'.
+    destruct (IH (tl r) s' C' D') as [J|J]; [|right; destruct r; cbn in *; lia].
+    left. rewrite T1, T2 in J. rewrite J. unfold Nz in *.
+    replace (0 <=? Z.of_N n)%Z with true by (symmetry; apply Z.leb_le; lia).
+    replace (Z.of_N n <=? Z.of_N (tw s) - Z.of_N (tr s))%Z with true; auto.
+    symmetry. apply Z.leb_le. lia.
+  - (* produce *)
+    destruct (produce size arg s) as [s' n] eqn:E.
+    assert (C' : cinvr size s') by (replace s' with (fst (produce size arg s)) by (rewrite E; auto); apply inv_produce; auto).
+    assert (D' : dinvr size s') by (replace s' with (cstep1 size s (CProd arg)) by (unfold cstep1; rewrite E; reflexivity); apply dinv_step; auto).
+    assert (T : tw s' = tw s + n /\ tr s' = tr s) by (revert E; unfold produce; intros X; inversion X; auto).
+    destruct T as [T1 T2]. pose proof (ci_ord _ _ C') as O'.
+    destruct (IH (tl r) s' C' D') as [J|J]; [|right; destruct r; cbn in *; lia].
+    left. rewrite T1, T2 in J. unfold Nz in *. replace (Z.of_N (tw s) + Z.of_N n)%Z with (Z.of_N (tw s + n)) by lia.
+    rewrite J.
+    replace (0 <=? Z.of_N n)%Z with true by (symmetry; apply Z.leb_le; lia).
+    replace (Z.of_N (tw s + n) - Z.of_N (tr s) <=? Z.of_N size)%Z with true; auto.
+    symmetry. apply Z.leb_le. lia.
+  - consume_case size f r arg s C D IH O.
+Qed.
 End Data.
+
+Theorem cursor_judge_run : forall case, CursorRing.judge case (CursorRing.run case) = true.
+Proof.
+  intros case. unfold judge, run, csize.
+  set (k2 := N.min (zN (hd 0%Z case)) 10).
+  assert (Hk : k2 <= 31) by (unfold k2; lia).
+  assert (C : cinvr (2 ^ k2) (cinit (2 ^ k2))).
+  { apply cinvr_init; [apply size_pos|]. pose proof (size_le k2 Hk). unfold two32. lia. }
+  assert (D : dinvr (2 ^ k2) (cinit (2 ^ k2))).
+  { constructor; cbn; [apply repeat_length|intros; lia]. }
+  destruct (judge_crun k2 Hk (S (length case)) (tl case) (cinit (2 ^ k2)) C D) as [J|J].
+  - exact J.
+  - exfalso. destruct case; cbn in J; lia.
+Qed.
